@@ -184,3 +184,59 @@ def part_c12(res: Result) -> None:
         elif o["dead_reader_got"][:1] != ["x1"]:
             res.bad("impl", "a dead-lettered (expired) message cannot be retrieved with Queue.get_messages(category=DEAD)",
                     case={"label": f"queue-api/dead-letters/{kind}"}, observed=o, expected={"dead_reader_got": ["x1"]})
+
+
+async def overlapping_iterations(kind: str) -> dict:
+    """one Queue object, two iterations that overlap in time: the dead letters, and the waiting messages.  Every handle keeps
+    the category of the iteration it came from (nack / retry are refused for a dead letter)"""
+    broker, conn, places = _mk(kind)
+    await conn.connect()
+    await broker.queue_declare("qa")
+    for i in range(3):
+        await _enq(broker, f"d{i}")
+    # dead-letter d0..d2: read and nack them
+    n = 0
+    async for msg in Queue("qa", _connection=conn).get_messages():
+        await msg.nack()
+        n += 1
+        if n == 3:
+            break
+    await asyncio.sleep(0.3)
+    for i in range(2):
+        await _enq(broker, f"n{i}")
+    q = Queue("qa", _connection=conn)
+    dead_iter = q.get_messages(category=MessageCategory.DEAD)
+    h0 = await asyncio.wait_for(dead_iter.__anext__(), 5)
+    normal_iter = q.get_messages()
+    n0 = await asyncio.wait_for(normal_iter.__anext__(), 5)
+    h1 = await asyncio.wait_for(dead_iter.__anext__(), 5)
+    out = {"broker": kind, "dead_handles": [h0.key.id_, h1.key.id_], "normal_handle": n0.key.id_, "refused": []}
+    for h in (h0, h1):
+        for api in ("nack", "retry", "force_retry"):
+            try:
+                await getattr(h, api)()
+                out["refused"].append([h.key.id_, api, "accepted"])
+            except ValueError as e:
+                out["refused"].append([h.key.id_, api, "refused"])
+    await n0.ack()
+    await dead_iter.aclose()
+    await normal_iter.aclose()
+    await asyncio.sleep(0.3)
+    out["places"] = places()
+    await conn.disconnect()
+    return out
+
+
+def part_c16(res: Result) -> None:
+    for kind in KINDS:
+        o = _run(lambda k=kind: overlapping_iterations(k), res, "C16", f"queue-api/overlapping-iterations/{kind}")
+        res.dist["queue-api:overlapping-iterations"] += 1
+        res.note(("queue-api", "overlapping-iterations", kind))
+        if o is None:
+            continue
+        bad = [r for r in o["refused"] if r[2] != "refused"]
+        if bad or sorted(o["dead_handles"]) != sorted(set(o["dead_handles"])) or not all(i.startswith("d") for i in o["dead_handles"]):
+            res.bad("impl", "a handle taken from the dead-letter iteration of a Queue accepted nack / retry / force_retry (two iterations "
+                            "of one Queue object overlapping in time)", case={"label": f"queue-api/overlapping-iterations/{kind}"},
+                    observed=o, expected="nack, retry and force_retry refused for both dead-letter handles")
+
